@@ -105,12 +105,17 @@ def guards_intact(rep, L, path, bufname, data_expected=None, tag=None):
 
 
 def run(rep, tier, seed):
-    groups = C.groups_for(tier, bundles=(tier != "quick"))
+    groups = C.groups_for(tier, bundles=False)
+    if tier != "quick" and not __import__("os").environ.get("VERIF_GROUPS"):
+        # bundles of several 3D groups multiply the elements' branch structures beyond the path cap (same list as C09)
+        groups = groups + ["Bundle:SO2,SE3,R3", "Bundle:SE2,SO3,R3", "Bundle:SO3,SO3", "Bundle:SE2,SE2,SE2,SE2",
+                           "Bundle:SGal3,R3,SO2", "Bundle:SE_2_3"]
     rep.trust("hash-consing of the tracer (equal node ids <=> same expression); sentinel (poison) cells around every buffer",
               "auto-valid tracing; A-RAND for setRandom")
     rep.assume("granularity is one scalar cell: discarded reads, byte-level overruns and alignment traps are NOT decided (sanitizer questions)")
     C.check_anchor(rep, "MANIF_GROUP_MAP_ASSIGN_OP", "include/manif/impl/macro.h")
     C.check_anchor(rep, "Eigen::Map<SE3>", "include/manif/impl/se3/SE3_map.h", r"class Map<manif::SE3")
+    items = []
     for off, H in ((0, H0), (1, H1)):
         errs = H.build(groups, native=False)
         for g in groups:
@@ -119,7 +124,17 @@ def run(rep, tier, seed):
                 rep.fail("C10/%s/off%d/instantiates" % (g, off), "BUILD", "g++", {"compiler_output": "\n".join(lines)},
                          {"failing_input_reproduced": False})
                 continue
-            check(rep, H, g, off)
+            items.append((H, g, off))
+
+    def one(r, it):
+        H, g, off = it
+        try:
+            check(r, H, g, off)
+        except RuntimeError as e:
+            if "too many paths" not in str(e):
+                raise
+            r.not_run.append("C10/%s/off%d: %s" % (g, off, str(e)[-120:]))
+    rep.parallel(items, one)
 
 
 def check(rep, H, g, off):
